@@ -593,6 +593,7 @@ def check(ctx):
         rep.cur_config = cfgname
         from . import common as _cm
         _cm.check_helpers(ctx, f, rep, 'C08-R0', {'Members::iter_active', 'Members::is_active'})
+        _cm.check_state_fields(f, rep, 'C08-R0', ('members',))
         from . import common as _common
         _common.check_frame(f, rep, 'C08-R0')
         _common.check_derives(f, rep, 'C08-R0')
